@@ -2,9 +2,11 @@
 //! a counting allocator (flags any single request above 4 MiB + 16·len) and RLIMIT_AS, with a logger
 //! at Debug level installed (some code only runs when logging is enabled).
 //! `hostile BYTES` → `parse=<c> meta=<c> acc=<c> digests=<c> sig=<c> keyids=<c> files=<c>` with
-//! c ∈ ok | err | panic | skip; or `abort` (child died) / `alloc-excess`; plus `iter=ok|runaway|panic|skip`: a consumer
-//! that keeps pulling items after an error (collect / filter_map) must see the iterator END (runaway = more than
-//! the header's file count + 16 items were produced).
+//! c ∈ ok | err | panic | skip; or `abort` (child died) / `alloc-excess`; plus `iter=<k>:<classes>:<fnv>|runaway|err|panic|skip`:
+//! a consumer that keeps pulling items after an error (collect / filter_map) must see the iterator END (runaway = more
+//! than the header's file count + 16 items were produced); otherwise the number of items it saw, their Ok / Err classes
+//! run-length encoded and a hash of their paths and contents (`c07::drain_all`), which the model predicts
+//! (Model/FileIter.lean); `err` = `files()` itself failed.
 use crate::common::*;
 use crate::pkggen::*;
 use std::io::Read;
@@ -93,18 +95,11 @@ fn stages(bytes: &[u8]) -> String {
             } else { "skip" };
             mark("files");
             let iter = if uncompressed {
-                match guarded(std::panic::AssertUnwindSafe(|| {
-                    let cap = p.metadata.get_file_entries().map(|v| v.len()).unwrap_or(0) + 16;
-                    match p.files() {
-                        Ok(it) => it.take(cap + 1).count() > cap,
-                        Err(_) => false,
-                    }
-                })) {
-                    Ok(false) => "ok",
-                    Ok(true) => "runaway",
-                    Err(_) => "panic",
+                match guarded(std::panic::AssertUnwindSafe(|| crate::c07::drain_all(&p))) {
+                    Ok(s) => if s == "err-files" { "err".to_string() } else { s },
+                    Err(_) => "panic".to_string(),
                 }
-            } else { "skip" };
+            } else { "skip".to_string() };
             mark("iter");
             out.push_str(&format!(" acc={} digests={} sig={} keyids={} files={} iter={}", cls(acc), cls(dig), cls(sig), cls(key), files, iter));
         }
